@@ -384,7 +384,7 @@ func (pc *pathCtx) concInt(it *item, t *Term, in ssa.Instruction) (int64, bool) 
 		return c.Int(), true
 	}
 	e := pc.e
-	const limit = 12
+	const limit = 32
 	var vals []*Term
 	var blocks []*Term
 	for len(vals) <= limit {
